@@ -292,17 +292,24 @@ def trace_branches(root: int, c0: int, c1: int, p: int, q: int) -> bool:
 def branch_kinds(kind: int, n_fail: int) -> bool:
     """Coalesce / Or / Switch: every attempted branch and the error that ended it appear"""
     start()
+    kind, n_fail = concretize(kind, 0, 4), concretize(n_fail, 2, 3)
+    if kind is OUT or n_fail is OUT:
+        return True
     fails = [T['nope%d' % i] for i in range(3)]
     ok = Val('fine')
-    kids = fails[:n_fail] + ([ok] if kind != 3 else [])
+    kids = fails[:n_fail] + ([ok] if kind not in (3, 4) else [])
     if kind == 0:
         spec = (Coalesce(*kids), T['after'])
     elif kind == 1:
         spec = (Or(*kids), T['after'])
     elif kind == 2:
         spec = (Switch([(k, Val(1)) for k in kids]), T['after'])
-    else:
+    elif kind == 3:
         spec = Coalesce(*kids)           # all fail
+    else:
+        # the first branch raises, the remaining ones are rejected by VALUE (skip=): still every attempted branch and the
+        # error that ended it must appear
+        spec = Coalesce(T['nope0'], *[Val(1)] * (n_fail - 1), skip=1)
     try:
         glom({'t': 1}, spec)
         return fail(why='expected failure')
@@ -313,12 +320,45 @@ def branch_kinds(kind: int, n_fail: int) -> bool:
         return fail(why='header', s=s)
     body = parsed[1]
     reach('branch_kinds')
+    if kind == 4:
+        shown = any("T['nope0']" in l and 'Spec: ' in l and re.match(r'^ [|]', l) for l in body)
+        named = any('PathAccessError' in l and re.match(r'^ [|]', l) for l in body)
+        return (shown and named) or fail(why='the branch that raised (before value-skipped ones) must appear with its error', body=body)
     if kind == 3:
         xs = [l for l in body if 'X ' in l and 'PathAccessError' in l]
         return len(xs) == n_fail or fail(why='one X line per failed branch', xs=xs, n=n_fail, body=body)
     # the branches were recovered from (the last alternative passed) and the chain failed later: no branch may be listed
     leaked = [l for l in body if re.match(r'^ [|]', l)]          # branch blocks are indented with |
     return (not leaked and "T['after']" in body[-2] + body[-1] + s) or fail(why='forgiven branches leaked', leaked=leaked)
+
+
+def equal_targets(kind: int, where: int) -> bool:
+    """a level receives a target that is EQUAL to the one above but a different object with a different repr
+    (1 -> 1.0, True -> 1, dict -> OrderedDict): the trace must show the target the failing spec actually received"""
+    start()
+    kind, where = concretize(kind, 0, 3), concretize(where, 0, 1)
+    if kind is OUT or where is OUT:
+        return True
+    from collections import OrderedDict
+    conv, t0, shown = [(float, 1, '1.0'), (int, True, '1'), (OrderedDict, {'a': 1}, "OrderedDict({'a': 1})"),
+                       ((lambda t: t + 0.0), 2, '2.0')][kind]
+    failing = T['nope'] if kind != 2 else T['zz']
+    spec = (conv, failing) if where == 0 else Coalesce((conv, failing), (conv, failing))
+    try:
+        glom(t0, spec)
+        return fail(why='expected failure')
+    except GlomError as e:
+        s = str(e)
+    parsed = parse(s)
+    if parsed is None:
+        return fail(why='header', s=s)
+    body = parsed[1]
+    reach('equal_targets')
+    # the last Target line above the failing spec is the converted value
+    idx = max(i for i, l in enumerate(body) if 'Spec: ' in l and ('nope' in l or "T['zz']" in l))
+    tgts = [l for l in body[:idx] if 'Target: ' in l]
+    last = _strip(tgts[-1], 'Target') if tgts else None
+    return last == shown or fail(why='the failing spec must be shown with the target it actually received', last=last, shown=shown, body=body)
 
 
 class R:
@@ -403,7 +443,8 @@ def obligations(tier):
                 pre = '0 <= p <= 3 and 0 <= q <= 4'
             obs.append(Ob(trace_branches, fixed=fx, pre=pre, name='trace_branches_%s_%s' % (KINDS[root], 'leaf' if c0 == LEAF else KINDS[c0]),
                           timeout=300 if q else 1200, path_timeout=60))
-    obs.append(Ob(branch_kinds, pre='0 <= kind <= 3 and 2 <= n_fail <= 3', name='branch_kinds', timeout=200))
+    obs.append(Ob(branch_kinds, pre='0 <= kind <= 4 and 2 <= n_fail <= 3', name='branch_kinds', timeout=200))
+    obs.append(Ob(equal_targets, pre='0 <= kind <= 3 and 0 <= where <= 1', name='equal_targets', timeout=200))
     for nk in range(9):
         obs.append(Ob(truncate, fixed={'nk': nk}, pre='14 <= maxlen <= 121 and 0 <= lk <= 4', name='truncate_n%d' % nk, timeout=300))
     for depth in range(1, 4 if q else 5):
